@@ -61,7 +61,9 @@ def gen_case(rng, big=False):
     nreq = rng.randint(1, 14 if not big else 40)
     reqs = []
     for r in range(nreq):
-        spacing = rng.choice([12.5e9, 25e9, 37.5e9, 50e9, 50e9, 50e9, 62.5e9, 75e9, 100e9, 33e9, 87.5e9])
+        # multiples of the 12.5 GHz slot and spacings that are not (fractional part below, at and above one half slot)
+        spacing = rng.choice([12.5e9, 25e9, 37.5e9, 50e9, 50e9, 50e9, 62.5e9, 75e9, 100e9, 33e9, 87.5e9,
+                              28e9, 31.25e9, 40e9, 56.25e9, 65e9])
         bit_rate = rng.choice([100e9, 100e9, 200e9, 400e9])
         nb = rng.choice([1, 1, 1, 1, 2, 2, 3])
         bw = rng.choice([bit_rate * nb, bit_rate * nb - 50e9 if bit_rate * nb > 50e9 else bit_rate * nb, bit_rate * nb])
@@ -313,6 +315,35 @@ def drive(case):
             steps.append(rec)
     finally:
         sa.build_path_oms_id_list = orig
+    # the same history given to pth_assign_spectrum in ONE call (as planning does) must end exactly like the
+    # request-by-request run: same outcome per request, same final spectrum state
+    if steps and len(steps) == len(case['requests']) and not steps[-1]['out'].startswith('E:'):
+        oms2, paths2 = make_world(case)
+        rqs2 = []
+        for r in case['requests']:
+            rq = NS(request_id=f"r{r['id']}", path_bandwidth=r['bw'], spacing=r['sp'], bit_rate=r['br'],
+                    N=list(r['N']), M=list(r['M']))
+            if r['pre_blocked']:
+                rq.blocking_reason = r.get('pre_reason', 'NO_PATH')
+            rqs2.append(rq)
+        try:
+            pth_assign_spectrum([p for p, _ in paths2], rqs2, oms2, [rp for _, rp in paths2], policy=case['policy'])
+            outs = []
+            for r, rq in zip(case['requests'], rqs2):
+                if r['pre_blocked']:
+                    outs.append('S')
+                elif rq.N is None:
+                    outs.append(f'B:{rq.blocking_reason}')
+                else:
+                    outs.append('A[' + ','.join(map(str, rq.N)) + '][' + ','.join(map(str, rq.M)) + ']')
+            diff = [f"request {r['id']}: one call gives {o2}, request by request {st['out']}"
+                    for r, o2, st in zip(case['requests'], outs, steps) if o2 != st['out']]
+            if not diff and raw(oms2) != steps[-1]['after']:
+                diff = ['final spectrum state differs']
+        except Exception as e:
+            diff = [f'one call raises {type(e).__name__}: {e}']
+        if diff:
+            steps[-1]['one_call_diff'] = diff[:3]
     return init, steps
 
 
@@ -344,6 +375,8 @@ def oracle(case, init, steps):
             fails.append(('exception', f"request {r['id']}: {st['exc']} (neither used-as-given nor blocked)"))
             continue
         path = sorted(set(r['pth'] + r['rpth']))
+        for d in st.get('one_call_diff', []):
+            fails.append(('one_call_differs', d))
         for err in r.get('_own_errors', []):
             fails.append(('element_oms_membership', f"request {r['id']}: line element {err}"))
         if sorted(st['path_oms']) != path or len(set(st['path_oms'])) != len(st['path_oms']):
